@@ -418,7 +418,8 @@ FAIL = 'FAIL'
 class Gen:
     """stack types are Python lists, top first. `strict`: never build a MAP whose body changes the element type."""
 
-    def __init__(self, rng: random.Random, max_size: int, strict: bool = True):
+    def __init__(self, rng: random.Random, max_size: int, strict: bool = True, safe: bool = False):
+        self.safe = safe      # never fail at run time: no FAILWITH, no shift above 256, no mutez ADD/MUL
         self.rng = rng
         self.budget = max_size
         self.strict = strict
@@ -532,7 +533,8 @@ class Gen:
             add(1.5, lambda: self._dip(s))
             add(1.0, lambda: self._dig(s))
             add(1.0, lambda: self._dug(s))
-            add(0.15, lambda: ([('FAILWITH',)], FAIL))
+            if not self.safe:
+                add(0.15, lambda: ([('FAILWITH',)], FAIL))
             add(0.7, lambda: self._loop(s))
             if comparable(top):
                 add(1.2, lambda: self._push_compare(s))
@@ -638,14 +640,18 @@ class Gen:
 
     def _arith_mixed(self, s):
         ops = MIXED_ARITH[(s[0][0], s[1][0])]
+        if self.safe:
+            ops = [o for o in ops if not (o[1] == T_MUTEZ and o[0] in ('ADD', 'MUL'))]
+            if not ops:
+                return None
         op, t = self.rng.choice(ops)
         return [(op,)], [t] + s[2:]
 
     def _shift(self, s):
         # LSL/LSR fail (run-time error, not FAILWITH) when the shift exceeds 256: mostly push a small shift first
         op = self.rng.choice(['LSL', 'LSR'])
-        if self.rng.random() < 0.7:
-            k = self.rng.choice([0, 1, 2, 7, 8, 63, 64, 255, 256, 257])
+        if self.safe or self.rng.random() < 0.7:
+            k = self.rng.choice([0, 1, 2, 7, 8, 63, 64, 255, 256] + ([] if self.safe else [257]))
             return [('DROP', 1), ('PUSH', T_NAT, ('int', k)), ('SWAP',), (op,)], s[1:]
         return [(op,)], s[1:]
 
@@ -875,7 +881,7 @@ class Gen:
             return [('PUSH', T_BOOL, ('bool', self.rng.random() < 0.8)), ('LOOP', code)], s
         # counted loop: PUSH nat k; PUSH bool True; LOOP { DIP { body }; counter-- }
         k = self.rng.choice([0, 1, 2, 3])
-        body, res = self.body_to(s, s, self.rng.randrange(0, 3), allow_fail=self.rng.random() < 0.2)
+        body, res = self.body_to(s, s, self.rng.randrange(0, 3), allow_fail=(not self.safe) and self.rng.random() < 0.2)
         inner = [('DIP', 1, body)] + self._counter_tail()
         self.budget -= 8
         return [('PUSH', T_NAT, ('int', k)), ('PUSH', T_BOOL, ('bool', True)), ('LOOP', ('SEQ', inner)), ('DROP', 1)], s
@@ -1449,8 +1455,10 @@ def instr_sweep(rng: random.Random, thorough: bool = False):
                 add([(t, v)], [('GETN', k)])
                 xt = rng.choice(leaf_types)
                 add([(xt, gen_data(rng, xt)), (t, v)], [('UPDATEN', k)])
+                pt = ('pair', T_NAT, ('pair', T_STRING, T_INT))       # a pair-typed new element, at odd and even positions
+                add([(pt, gen_data(rng, pt)), (t, v)], [('UPDATEN', k)])
     # stack shuffles at every depth, also under a protected prefix (inside DIP k)
-    base = [(T_INT, ('int', i)) for i in range(1, 6)]
+    base = [(T_INT, ('int', 1)), (T_STRING, ('str', 'b')), (T_NAT, ('int', 3)), (T_BOOL, ('bool', True)), (T_BYTES, ('bytes', b'\x05'))]
     for n in range(0, 6):
         for op in ('DROP', 'DIG', 'DUG', 'DUP'):
             if (op == 'DUP' and n == 0) or (op in ('DIG', 'DUG') and n == 5):
@@ -1467,3 +1475,109 @@ def instr_sweep(rng: random.Random, thorough: bool = False):
     for c in out:
         c['stream'] = 'instr-sweep'
     return out
+
+
+# --------------------------------------------------------------------------------------
+# REPL sessions: several cells on one Interpreter; failing cells (also deep inside DIP / loops) must leave the
+# session stack and its `protected` counter untouched
+# --------------------------------------------------------------------------------------
+def failing_cell(rng: random.Random, stack: list):
+    """a well-typed cell that fails at run time whatever the stack contents are"""
+    t = gen_type(rng, 1)
+    failer = [('PUSH', T_BOOL, ('bool', True)), ('IF', ('SEQ', [('PUSH', t, gen_data(rng, t)), ('FAILWITH',)]), ('SEQ', []))]
+    if rng.random() < 0.3:   # a run-time error instead of FAILWITH: shift by 300
+        failer = [('PUSH', T_NAT, ('int', 300)), ('PUSH', T_NAT, ('int', 1)), ('LSL',), ('DROP', 1)]
+    if rng.random() < 0.4:
+        failer = [('PUSH', T_INT, ('int', 7))] + failer + [('DROP', 1)]
+    n = rng.randrange(0, len(stack) + 1)
+    inner = [('DIP', n, ('SEQ', failer))] if (n > 0 or rng.random() < 0.5) else failer
+    if n >= 2 and rng.random() < 0.4:
+        m = rng.randrange(1, n)
+        inner = [('DIP', m, ('SEQ', [('DIP', n - m, ('SEQ', failer))]))]
+    r = rng.random()
+    if r < 0.4:
+        return inner
+    if r < 0.55:
+        return [('PUSH', ('list', T_INT), ('list', [('int', 1), ('int', 2)])), ('ITER', ('SEQ', [('DROP', 1)] + inner))]
+    if r < 0.7:
+        return [('PUSH', ('list', T_INT), ('list', [('int', 1)])), ('MAP', ('SEQ', [('DIP', 1, ('SEQ', inner))])), ('DROP', 1)]
+    if r < 0.85:
+        return [('PUSH', T_BOOL, ('bool', True)), ('LOOP', ('SEQ', inner + [('PUSH', T_BOOL, ('bool', False))]))]
+    return [('UNIT',), ('DIP', 1, ('SEQ', inner)), ('DROP', 1)]
+
+
+def gen_session(rng: random.Random, max_size: int):
+    n_in = rng.choice([1, 2, 3, 4, 5])
+    inputs = []
+    for _ in range(n_in):
+        t = gen_type(rng, rng.choice([0, 1, 2]))
+        inputs.append((t, gen_data(rng, t)))
+    stack = [t for t, _ in inputs]
+    cells = []
+    kinds = []
+    for _ in range(rng.choice([2, 3, 3, 4, 5])):
+        if rng.random() < 0.45:
+            cells.append(('SEQ', failing_cell(rng, stack)))
+            kinds.append('fail')
+        else:
+            g = Gen(rng, max_size, strict=True, safe=True)
+            code, res = g.seq(stack, rng.choice([1, 2, 4, max_size]))
+            cells.append(('SEQ', code))
+            kinds.append('ok')
+            stack = res
+    return {'inputs': inputs, 'cells': cells, 'kinds': kinds, 'env': gen_env(rng), 'code': ('SEQ', [c for cell in cells for c in cell[1]])}
+
+
+def run_session(case) -> list:
+    """-> per cell: (observation dict, stack-after as [pval literal...], protected counter)"""
+    from pytezos.michelson.repl import Interpreter
+
+    box = _hook_failwith()
+    it = Interpreter()
+    set_env(it.context, case.get('env') or DEFAULT_ENV)
+    pre = ' ; '.join(f'PUSH {ty_mich(t)} {data_mich(d)}' for t, d in reversed(case['inputs']))
+    r0 = it.execute(pre)
+    if r0.error is not None:
+        return [({'kind': 'error', 'why': f'input stack rejected: {r0.error!r}'[:300]}, [], 0)]
+    out = []
+    for cell in case['cells']:
+        del box[:]
+        res = it.execute(code_mich(cell))
+        try:
+            if res.error is None:
+                o = {'kind': 'done', 'stack': [(obj_pval(v), None, None, None) for v in res.stack.items]}
+            else:
+                args = getattr(res.error, 'args', ())
+                if len(args) >= 2 and args[-2] == 'FAILWITH' and box and box[-1] is not None:
+                    o = {'kind': 'failwith', 'value': obj_pval(box[-1]), 'repr_ok': args[-1] == repr(box[-1])}
+                else:
+                    o = {'kind': 'error', 'why': repr(res.error)[:300]}
+            after = [obj_pval(v) for v in it.stack.items]
+        except Unrenderable as e:
+            o, after = {'kind': 'unrenderable', 'why': str(e)}, []
+        out.append((o, after, int(it.stack.protected)))
+    return out
+
+
+def session_coq(case) -> str:
+    ins = clist(f'({ty_coq(t)}, {data_coq(d)})' for t, d in case['inputs'])
+    return f'({env_coq(case.get("env") or DEFAULT_ENV)}, ({clist(code_coq(c) for c in case["cells"])}, {ins}))'
+
+
+def session_obs_coq(obs: list) -> str:
+    return clist(f'({obs_coq(o)}, ({clist(after)}, {cnat(p) if p < 4000 else "4999%nat"}))' for o, after, p in obs)
+
+
+def session_text(case) -> str:
+    pre = ' ; '.join(f'PUSH {ty_mich(t)} {data_mich(d)}' for t, d in reversed(case['inputs']))
+    return pre + ' ;; ' + ' ;; '.join(code_mich(c) for c in case['cells'])
+
+
+def session_repro(case) -> str:
+    pre = ' ; '.join(f'PUSH {ty_mich(t)} {data_mich(d)}' for t, d in reversed(case['inputs']))
+    cells = [code_mich(c) for c in case['cells']]
+    e = case.get('env') or DEFAULT_ENV
+    envs = (f"c=i.context; c.amount, c.balance, c.sender, c.source, c.address, c.now, c.level, c.chain_id = "
+            f"{e['amount']}, {e['balance']}, {e['sender']!r}, {e['source']!r}, {e['self']!r}, {e['now']}, {e['level']}, {e['chain_id']!r}; ")
+    return (f"from pytezos.michelson.repl import Interpreter; i=Interpreter(); {envs}i.execute({pre!r})\n"
+            f"for cell in {cells!r}:\n    r=i.execute(cell); print(r.error, i.stack.items, i.stack.protected)")
